@@ -44,7 +44,7 @@ pub enum GlyphModel {
     Composite {
         bbox: (i16, i16, i16, i16),
         comps: Vec<CompModel>,
-        /// Some(v): WE_HAVE_INSTRUCTIONS on the last component followed by v (possibly empty)
+        /// Some(v): WE_HAVE_INSTRUCTIONS (on the last, another, or every component) followed by v (possibly empty)
         instructions: Option<Vec<u8>>,
     },
 }
@@ -75,8 +75,20 @@ pub fn glyf_composite(bbox: (i16, i16, i16, i16), comps: &[CompModel], instructi
         };
         if !last {
             flags |= 0x0020;
-        } else if instructions.is_some() {
-            flags |= 0x0100;
+        }
+        // WE_HAVE_INSTRUCTIONS: on the last component, or (chosen by the content, two records in
+        // five) on another single component or on all of them — readers honour it anywhere
+        if let Some(ins) = instructions {
+            let n = comps.len();
+            let sel = (ins.len() + n + comps[0].glyph as usize) % 5;
+            let carrier = match sel {
+                0 => Some((ins.len() + comps[0].glyph as usize) % n),
+                1 => None, // all components
+                _ => Some(n - 1),
+            };
+            if carrier.map_or(true, |k| k == i) {
+                flags |= 0x0100;
+            }
         }
         b.u16(flags).u16(c.glyph);
         match (c.args, words) {
